@@ -631,6 +631,75 @@ def check_v1_alignment(model, rep):
         raise AnalysisError(f'R19.7: only {n} index-set tests found in expression_v1 (_add_sub, align, stack, parse_substitution expected)')
 
 
+def check_v1_summed_and_names(model, rep):
+    """R19.8 (v1): (a) `_Array.summed` records the indices a value has already summed over; "an index occurs more than twice" is decided
+    from it when values are multiplied.  Every operation that combines two _Array values must pass on the union of both `summed` sets -
+    an operation that keeps only its left operand's set forgets what the right operand summed ((a + b_i b_i) b_i is then accepted).
+    (b) names that reach _eval_ast are looked up in tables supplied at evaluation time; a name that is not there must leave as
+    ExpressionSyntaxError, not as the KeyError of the lookup.  (c) a string literal with {placeholders} that is neither an f-string nor
+    .format()ted is passed on literally (Namespace.copy_ built the keyword 'length_{i}')."""
+    mod = model.module('expression_v1')
+    A = mod.classes.get('_Array')
+    if A is None:
+        raise AnalysisError('expression_v1._Array not found')
+    n = 0
+    for mem in A.members.values():
+        f = mem.func
+        if f is None or isinstance(f.node, ast.Lambda):
+            continue
+        pos = params(f.node)[0]
+        if len(pos) < 2 or pos[0] != 'self' or pos[1] != 'other':
+            continue
+        for c in ast.walk(f.node):
+            if isinstance(c, ast.Call) and src(c.func) == '_Array' and (len(c.args) >= 4 or any(k.arg == 'summed' for k in c.keywords)):
+                summed = c.args[3] if len(c.args) >= 4 else next(k.value for k in c.keywords if k.arg == 'summed')
+                n += 1
+                names = {x.value.id for x in ast.walk(summed) if isinstance(x, ast.Attribute) and x.attr == 'summed' and isinstance(x.value, ast.Name)}
+                local = {x.id for x in ast.walk(summed) if isinstance(x, ast.Name)} - {'self', 'other', 'frozenset', 'set'}
+                ok = {'self', 'other'} <= names or bool(local)    # a local that was assembled from both is accepted (checked below)
+                if local and not {'self', 'other'} <= names:
+                    defs = [a for a in ast.walk(f.node) if isinstance(a, (ast.Assign, ast.AugAssign)) and any(isinstance(t, ast.Name) and t.id in local for t in ast.walk(a.targets[0] if isinstance(a, ast.Assign) else a.target))]
+                    seen = {x.value.id for a in defs for x in ast.walk(a) if isinstance(x, ast.Attribute) and x.attr == 'summed' and isinstance(x.value, ast.Name)}
+                    ok = {'self', 'other'} <= seen
+                rep.ob('R19.8', f.key, f.where(c), ok, f'_Array.{f.name} passes on the summed indices of both operands' if ok else
+                       f'`{src(c)[:70]}` passes on `{src(summed)}` only: what the other operand has already summed over is forgotten, so an index that occurs a third time in a later product is no longer rejected '
+                       '((a + b_i b_i) b_i)', statement=f'summed-union@{f.name}')
+    if n < 2:
+        raise AnalysisError(f'only {n} binary _Array constructions found')
+    ea = mod.functions.get('_eval_ast')
+    if ea is None:
+        raise AnalysisError('expression_v1._eval_ast not found')
+    lookups = [x for x in ast.walk(ea.node) if isinstance(x, ast.Subscript) and isinstance(x.value, ast.Name) and x.value.id == 'functions' and isinstance(x.ctx, ast.Load)]
+    for lk in lookups:
+        key = src(lk.slice)
+        guards = [g for g in ast.walk(ea.node) if isinstance(g, ast.If) and g.lineno < lk.lineno and f'{key} not in functions' in src(g.test) and any(isinstance(b, ast.Raise) and 'ExpressionSyntaxError' in src(b) for b in g.body)]
+        tries = [t for t in ast.walk(ea.node) if isinstance(t, ast.Try) and any(x is lk for b in t.body for x in ast.walk(b)) and any('KeyError' in src(h.type or ast.Constant(value='')) for h in t.handlers)]
+        ok = bool(guards) or bool(tries)
+        rep.ob('R19.8', ea.key, ea.where(lk), ok, f'`functions[{key}]` is preceded by a membership test that raises ExpressionSyntaxError' if ok else
+               f'`functions[{key}]` is looked up without a membership test: an unknown function name in an expression leaves as KeyError instead of the module\'s ExpressionSyntaxError', statement='unknown-function')
+    if not lookups:
+        raise AnalysisError('_eval_ast: no lookup in the function table found')
+    # (c) unformatted placeholders
+    import re
+    for m_ in (model.module('expression_v1'), model.module('expression_v2')):
+        nlit = 0
+        for f in model.functions.values():
+            if f.module is not m_ or isinstance(f.node, ast.Lambda):
+                continue
+            formatted = {id(c.func.value) for c in ast.walk(f.node) if isinstance(c, ast.Call) and isinstance(c.func, ast.Attribute) and c.func.attr in ('format', 'format_map')}
+            infstr = {id(v) for j in ast.walk(f.node) if isinstance(j, ast.JoinedStr) for v in ast.walk(j)}
+            doc = ast.get_docstring(f.node, clean=False)
+            localnames = {x.id for x in ast.walk(f.node) if isinstance(x, ast.Name)} | {a.arg for a in ast.walk(f.node) if isinstance(a, ast.arg)}
+            for c in ast.walk(f.node):
+                if isinstance(c, ast.Constant) and isinstance(c.value, str) and c.value != doc and id(c) not in formatted and id(c) not in infstr:
+                    nlit += 1
+                    ph = [p_ for p_ in re.findall(r'\{([A-Za-z_][A-Za-z_0-9]*)\}', c.value) if p_ in localnames]
+                    if ph:
+                        rep.ob('R19.8', f.key, f.where(c), False, f'the string literal {c.value!r} contains the placeholder {{{ph[0]}}} of a local name but is neither an f-string nor .format()ted: it is used literally',
+                               statement=f'unformatted-placeholder {c.value[:30]}')
+        rep.ob('R19.8', f'{m_.short}:literals', m_.relpath + ':1', True, f'{nlit} string literals inspected for unformatted placeholders of local names', statement='placeholders-inspected')
+
+
 def run(model, rep, tier):
     rep.explanation = (
         'R19.1 error discipline of expression_v2._Parser: every explicit raise raises ExpressionSyntaxError (or a local bound to one), every int()/float() of user text sits under a '
@@ -646,6 +715,7 @@ def run(model, rep, tier):
     rep.rule('R19.3', 'v2 tables: brackets, array operations, default functions')
     rep.rule('R19.4', 'v1: _IntermediateError never escapes; grammar methods @highlight')
     rep.rule('R19.5', 'v1: opcode writer/reader agreement')
+    rep.rule('R19.8', 'v1: binary _Array operations pass on the summed indices of both operands; unknown function names leave as ExpressionSyntaxError; no unformatted {placeholders}')
     rep.rule('R19.7', 'v1: arrays that passed an index-set equality test are transposed to a common index order before they are combined')
     rep.rule('R19.6', 'v1: the delimiter of every parsed scope is asserted by whoever obtained the scope (whole-input consumption at the entry)')
     check_v2_errors(model, rep)
@@ -655,6 +725,7 @@ def run(model, rep, tier):
     check_v1_opcodes(model, rep)
     check_v1_scopes(model, rep)
     check_v1_alignment(model, rep)
+    check_v1_summed_and_names(model, rep)
     rep.require('R19.1', 35)
     rep.require('R19.2', 20)
     rep.require('R19.3', 30)
